@@ -517,8 +517,25 @@ func (r *runner) stress(a hx.Args) string {
 			}
 		}(w)
 	}
+	stopClean := make(chan struct{})
+	cleanDone := make(chan struct{})
+	go func() {
+		// a Clean that removes nothing by age (every entry is younger than 1970) runs beside the calls: an entry
+		// inserted while a bucket is being rebuilt must survive
+		defer close(cleanDone)
+		for {
+			select {
+			case <-stopClean:
+				return
+			default:
+			}
+			r.m.Clean(r.ctx, time.Unix(1, 0))
+		}
+	}()
 	close(start)
 	wg.Wait()
+	close(stopClean)
+	<-cleanDone
 	if panics > 0 {
 		return "panic"
 	}
@@ -591,6 +608,21 @@ func (r *runner) storm(a hx.Args) string {
 	dlv := map[int]bool{}
 	var wg sync.WaitGroup
 	panics := int32(0)
+	stopClean := make(chan struct{})
+	cleanDone := make(chan struct{})
+	go func() {
+		// a Clean that removes nothing by age (every entry is younger than 1970) runs beside the calls: an entry
+		// inserted while a bucket is being rebuilt must survive
+		defer close(cleanDone)
+		for {
+			select {
+			case <-stopClean:
+				return
+			default:
+			}
+			r.m.Clean(r.ctx, time.Unix(1, 0))
+		}
+	}()
 	for w := 0; w < g; w++ {
 		wg.Add(1)
 		go func(w int) {
@@ -631,6 +663,8 @@ func (r *runner) storm(a hx.Args) string {
 		}(w)
 	}
 	wg.Wait()
+	close(stopClean)
+	<-cleanDone
 	if panics > 0 {
 		return "panic"
 	}
